@@ -459,6 +459,10 @@ pub struct DegCase {
     /// general-purpose / floating point, GETREGS, GETFPREGS, PEEKUSER)
     #[serde(default)]
     pub refused_ptrace: Option<u8>,
+    /// the target is not group-stopped (StopProcess fail point) and two of its threads keep changing
+    /// its memory map and its descriptor table while the writer reads them
+    #[serde(default)]
+    pub churn: bool,
 }
 
 pub fn check_degenerate(c: &DegCase) -> Verdict {
@@ -479,6 +483,10 @@ pub fn check_degenerate(c: &DegCase) -> Verdict {
     }
     let (_, appmap) = b.add_anon(2, 3, 0xD6);
     let (_, ipmap) = b.add_anon(1, 5, 0xD7);
+    if c.churn {
+        b.add_thread(K_MAPCHURN, Some(b"mapchurn".to_vec()), 0, 1);
+        b.add_thread(K_FDCHURN, Some(b"fdchurn".to_vec()), 0, 2);
+    }
     let spec = b.spec.clone();
     let t = match Target::spawn(&spec, scratch) {
         Ok(t) => t,
@@ -587,7 +595,11 @@ pub fn check_degenerate(c: &DegCase) -> Verdict {
         }
         classes.push("dumper:signals-blocked".to_string());
     }
-    let out = match c.fd_budget {
+    if c.churn {
+        classes.push("target:map-and-descriptor-churn-while-not-stopped".to_string());
+    }
+    let spot = if c.churn { FS_STOP } else { 0 };
+    let out = with_failspots(spot, || match c.fd_budget {
         None if c.unopenable.is_none() && c.refused_ptrace.is_some() => {
             classes.push("dumper:ptrace-register-requests-refused".to_string());
             with_watchdog(30.0, || with_refused_regsets(c.refused_ptrace.unwrap() & 31, || run_dump(&mut w, &mut dest)))
@@ -602,7 +614,7 @@ pub fn check_degenerate(c: &DegCase) -> Verdict {
             with_watchdog(30.0, || with_fd_budget(k % 12, || run_dump(&mut w, &mut dest)))
         }
         None => with_watchdog(30.0, || run_dump(&mut w, &mut dest)),
-    };
+    });
     if c.signals_blocked {
         unsafe { libc::pthread_sigmask(libc::SIG_SETMASK, &oldmask, std::ptr::null_mut()) };
     }
@@ -748,9 +760,9 @@ pub fn run(ctx: &mut LaneCtx) {
         SubSpec {
             name: "degenerate-targets",
             cases: (640, 20_000),
-            rule: "target state {killed and not reaped (zombie: nothing can be stopped), gone (no such process), every thread held by another tracer (nothing can be attached), already group-stopped, ordinary} with 0..26 parked threads x size limit {none, 0, 1, 0..200000, around 64 KiB, u64::MAX} x sanitize x skip-unreferenced with principal address {unmapped, in a stack, 0, top} x crash context {none, in mappings, unmapped, top of the address space} x app memory x stop timeout {generous, 0, 1 ms, Duration::MAX} x blamed thread main/other x state of the dumping process {may open only 0..11 more descriptors, all signals blocked, any subset of ten families of /proc and release files unopenable, any subset of the five ptrace register requests refused by the kernel}; oracle = the request returns Ok or Err within the watchdog, no panic; every case non-trivial; distinct = hash of case",
-            strategy: ((0u8..5, prop_oneof![3 => 0u8..6, 1 => 19u8..27], 0u8..6, any::<u32>(), any::<bool>()), (0u8..5, 0u8..4, any::<bool>(), 0u8..4, any::<bool>()), (proptest::option::weighted(0.35, 0u8..12), proptest::bool::weighted(0.25), proptest::option::weighted(0.3, any::<u16>()), proptest::option::weighted(0.3, 1u8..32)))
-                .prop_map(|((state, threads, limit, limit_val, sanitize), (skip, crash, app, stop_timeout, blamed_other), (fd_budget, signals_blocked, unopenable, refused_ptrace))| DegCase { state, threads, limit, limit_val, sanitize, skip, crash, app, stop_timeout, blamed_other, fd_budget, signals_blocked, unopenable, refused_ptrace })
+            rule: "target state {killed and not reaped (zombie: nothing can be stopped), gone (no such process), every thread held by another tracer (nothing can be attached), already group-stopped, ordinary} with 0..26 parked threads, in a quarter of the cases not group-stopped and with two threads that keep changing the memory map and the descriptor table while the writer reads them, x size limit {none, 0, 1, 0..200000, around 64 KiB, u64::MAX} x sanitize x skip-unreferenced with principal address {unmapped, in a stack, 0, top} x crash context {none, in mappings, unmapped, top of the address space} x app memory x stop timeout {generous, 0, 1 ms, Duration::MAX} x blamed thread main/other x state of the dumping process {may open only 0..11 more descriptors, all signals blocked, any subset of ten families of /proc and release files unopenable, any subset of the five ptrace register requests refused by the kernel}; oracle = the request returns Ok or Err within the watchdog, no panic; every case non-trivial; distinct = hash of case",
+            strategy: ((0u8..5, prop_oneof![3 => 0u8..6, 1 => 19u8..27], 0u8..6, any::<u32>(), any::<bool>()), (0u8..5, 0u8..4, any::<bool>(), 0u8..4, any::<bool>()), (proptest::option::weighted(0.35, 0u8..12), proptest::bool::weighted(0.25), proptest::option::weighted(0.3, any::<u16>()), proptest::option::weighted(0.3, 1u8..32), proptest::bool::weighted(0.25)))
+                .prop_map(|((state, threads, limit, limit_val, sanitize), (skip, crash, app, stop_timeout, blamed_other), (fd_budget, signals_blocked, unopenable, refused_ptrace, churn))| DegCase { state, threads, limit, limit_val, sanitize, skip, crash, app, stop_timeout, blamed_other, fd_budget, signals_blocked, unopenable, refused_ptrace, churn })
                 .boxed(),
             max_shrink_iters: 100,
             log_current: true,
